@@ -401,3 +401,16 @@ Definition pool_result (r : wresult) (b : backend) : Z * string :=
          | BFailCode s => (s, "failureCode"%string)
          end
   end.
+
+(** servers contacted by one request: none when short-circuited; an admitted request whose
+    backend call fails is retried by the retry wrapper INSIDE the breaker's single call
+    ([retry] = maxAttempts of a configured retry policy, 0 = none), except for stream
+    requests, which are never retried.  The breaker wraps EVERY request shape. *)
+Definition pool_contacts (retry : Z) (stream : bool) (r : wresult) (b : backend) : Z :=
+  match r with
+  | WShort => 0
+  | _ => match b with
+         | BOk _ => 1
+         | _ => if (0 <? retry) && negb stream then retry else 1
+         end
+  end.
